@@ -23,6 +23,9 @@ def strategy(tier):
 
 
 def execute(case):
+    if case.get('mode') == 'threads':
+        from vlib import threadprog
+        return c02_snapshot.run_threads(case, PROPERTY, [threadprog.history_oracle, threadprog.snapshot_oracle])
     out, w = c02_snapshot.run(case, PROPERTY)
     out.nontrivial = bool(w.labels & {'conflict', 'resolved', 'overlapping-commit-ok'})
     return out
